@@ -1,6 +1,6 @@
 SPECIFICATION Spec
 CONSTANTS
-  Tree <- MCTree
-  ProgSet <- MCProgsA
+  Tree <- MCTreeB
+  ProgSet <- MCProgsB
 INVARIANTS ConfigInv
 CHECK_DEADLOCK FALSE
